@@ -46,6 +46,34 @@ def runReq (segs : List Bytes) : St × List Out :=
 def runResp (meth : Bytes) (segs : List Bytes) : St × List Out :=
   (machine (responseSize meth)).feedAll ⟨.head, []⟩ segs
 
+/-- `HttpUpstreamProxy.receive_handshake_data` on a segmented CONNECT reply: the machine instantiated with `handshakeSize`
+    (the object of `handshake_seg_independent`).  Rendered: `m:<what is left for the tunnel>` once a 2xx head was read (bytes
+    behind the head and later segments are tunnel payload: they stay buffered in `wait`), `r` = refused / malformed, `-` =
+    head not complete yet. -/
+def runHs (segs : List Bytes) : String :=
+  let r := (machine handshakeSize).feedAll ⟨.head, []⟩ segs
+  match r.2.head? with
+  | some (.msg _ _) => "m:" ++ showBytes r.1.buf
+  | some _ => "r"
+  | none => "-"
+
+/-- both connections together: `sysRun` (the object of the merged-schedule theorems) on a schedule of client and server
+    segments, from the initial state (client-side reader at a head, upstream reader idle) -/
+def parseEv (tok : String) : Option Ev :=
+  if tok.startsWith "c:" then (hexOr (tok.drop 2).toString).map Ev.client
+  else if tok.startsWith "s:" then (hexOr (tok.drop 2).toString).map Ev.server
+  else none
+
+def showSys : SysOut → String
+  | .request (.msg _ b) => "Q:" ++ showBytes b
+  | .request _ => "Qx"
+  | .response (.msg _ b) => "R:" ++ showBytes b
+  | .response _ => "Rx"
+
+def runSys (meth : Bytes) (evs : List Ev) : String :=
+  let r := sysRun requestSize (responseSize meth) ⟨⟨.head, []⟩, ⟨.wait, []⟩⟩ evs
+  (if r.2.isEmpty then "-" else ",".intercalate (r.2.map showSys)) ++ " s=" ++ showPhase r.1.s.phase ++ " c=" ++ showPhase r.1.c.phase
+
 def render (r : St × List Out) : String :=
   (if r.2.isEmpty then "-" else ",".intercalate (r.2.map showOut)) ++ " " ++ showPhase r.1.phase
 
@@ -58,6 +86,14 @@ def step (line : String) : String :=
   | "resp" :: m :: segs =>
     match hexOr m, parseSegs segs with
     | some meth, some ss => render (runResp meth ss)
+    | _, _ => "bad-op"
+  | "hs" :: segs =>
+    match parseSegs segs with
+    | some ss => runHs ss
+    | none => "bad-op"
+  | "sys" :: m :: evs =>
+    match hexOr m, evs.mapM parseEv with
+    | some meth, some es => runSys meth es
     | _, _ => "bad-op"
   | _ => "bad-op"
 
